@@ -22,19 +22,6 @@ for c in C01 C02 C03 C04 C05 C06 C07 C08 C09 C10 C11 C12 C13 C14 C15 C16 C17 C18
   printf ' "%s": {"exit": %d, "violation_lines": %d, "no_failing_input": %d}' $c $e $v $n >> "$out.tmp"
 done
 echo "" >> "$out.tmp"; echo "}" >> "$out.tmp"; mv "$out.tmp" "$out"
-# robustness: the change's own property check under three other seeds (caught = exit 1 with a concrete failing input)
-own=${id%%-*}
-rb="$V/seeded/$id/robust.json"
-printf '{"check": "%s", "seeds": {' $own > "$rb.tmp"
-first=1
-for s in 1 2 3; do
-  r=$(cd "$W/verif" && CM_REPO="$W/repo" VERIF_SEED=$s ./check $own --tier quick 2>&1); e=$?
-  v=$(printf '%s\n' "$r" | grep -c '^VIOLATION')
-  n=$(printf '%s\n' "$r" | grep -c 'no-failing-input-found')
-  [ $first = 1 ] || printf ', ' >> "$rb.tmp"; first=0
-  printf '"%d": {"exit": %d, "violation_lines": %d, "no_failing_input": %d}' $s $e $v $n >> "$rb.tmp"
-done
-echo '}}' >> "$rb.tmp"; mv "$rb.tmp" "$rb"
 git -C /repo worktree remove --force "$W/repo"
 rm -rf "$W"
 echo "$id done"
